@@ -47,7 +47,13 @@ let run_ops (line : string) (answer : (int, unit, int * int) stack -> hook -> st
 let show (own, seen) = Printf.sprintf "%d:%d" own seen
 
 let run_case (line : string) : string =
-  if line <> "" && line.[0] = 'K' then "same" else
+  if line <> "" && (line.[0] = 'K' || line.[0] = 'L') then "same" else
+  if line = "SITES" then
+    String.concat " " (Stdlib.List.map (fun (h, sa) ->
+      (match h with HGetPage -> "get_page" | HReadCaps -> "read_caps" | HRegValue -> "reg_value"
+       | HSymValue -> "sym_value" | HSymSizeof -> "sym_sizeof" | HSymOffsetof -> "sym_offsetof"
+       | HNumValue -> "num_value") ^ ":" ^ (match sa with PassSame -> "same" | PassOther _ -> "other"))
+      library_sites) else
   run_ops line (fun stack h ->
     match invoke (not pinned) stack h () (nat_of_int 64) with
     | Done r -> show r
@@ -56,7 +62,7 @@ let run_case (line : string) : string =
 
 (* what the specification demands for every I op of the line *)
 let spec_case (line : string) : string =
-  if line <> "" && line.[0] = 'K' then "same" else
+  if line <> "" && (line.[0] = 'K' || line.[0] = 'L' || line.[0] = 'S') then "same" else
   run_ops line (fun stack h ->
     match CbSpec.invoke_spec stack h () with
     | Some r -> show r
